@@ -17,6 +17,18 @@ def formNode (op : String) (nIn nOut : Nat) (attrs : List String) : Node :=
 def formLegal (v : Nat) (f : String × Nat × Nat × List String) : Bool :=
   nodeLegalB schemas v (formNode f.1 f.2.1 f.2.2.1 f.2.2.2)
 
+/-- inputs `x0, x1, …` with the declared dtype codes `dts` (0 = not declared) -/
+def typedIns (dts : List Nat) : List String := (List.range dts.length).map (fun k => "x" ++ toString k)
+
+def typedVis (dts : List Nat) : List (String × Annot) :=
+  ((List.range dts.length).zip dts).filterMap
+    (fun p => if p.2 = 0 then none else some ("x" ++ toString p.1, (⟨some p.2, none⟩ : Annot)))
+
+/-- typed form: operator, arity, attribute names legal AND the declared input element types admitted -/
+def tformLegal (v : Nat) (f : String × Nat × Nat × List String × List Nat) : Bool :=
+  let n : Node := .mk "" f.1 (typedIns f.2.2.2.2) (List.replicate f.2.2.1 "y") f.2.2.2.1 []
+  decide (f.2.1 = f.2.2.2.2.length) && nodeLegalB schemas v n && nodeTypedB schemas v (typedVis f.2.2.2.2) n
+
 /-- opsets carrying the claim: 21 .. newest defined by the installed onnx -/
 def claimedOpsets : List Nat := List.range' 21 (maxOpset - 20)
 
@@ -40,13 +52,15 @@ theorem swish_gate_legal :
 theorem swish_gate_complete :
     ∀ v ∈ claimedOpsets, (swishForms.any fun e => e.1 == v) = true := by decide +kernel
 
-/-- **Gate programs.** Every distinct node form (any depth, function bodies included) of the gate
-    programs exported by the live `to_onnx` at every opset 21..max is legal at that opset. This is the
+/-- **Gate programs.** Every distinct node form (any depth, function bodies included; with the declared
+    element type of every input) of the gate programs exported by the live `to_onnx` at every opset
+    21..max is legal at that opset: operator version, arity, attribute names AND input element types
+    against the type constraints of the signature in force. This is the
     `_partial` form of "every emitted operator is legal": it covers the catalogue `gatePrograms`
     (opset-gated lowerings: reductions, silu/swish, rms_norm, dynamic_update_slice, reduce_window, …),
     NOT all ~600 plugins – those are checked per export by the proven checker. -/
 theorem gate_programs_legal_partial :
-    ∀ e ∈ gateForms, formLegal e.1 e.2 = true := by decide +kernel
+    ∀ e ∈ gateForms, tformLegal e.1 e.2 = true := by decide +kernel
 
 theorem gate_programs_complete :
     ∀ v ∈ claimedOpsets, ∀ p ∈ gatePrograms, (gateExports.contains (p, v)) = true := by decide +kernel
@@ -64,6 +78,13 @@ theorem bitcast_illegal_before_26 :
     ∀ v ∈ [21, 22, 23, 24, 25], nodeLegalB schemas v bitCastNode = false := by decide +kernel
 theorem cumprod_bitcast_legal_at_26 :
     nodeLegalB schemas 26 cumProdNode = true ∧ nodeLegalB schemas 26 bitCastNode = true := by
+  decide +kernel
+
+/-- half-precision `Range` operands are admitted by the installed onnx only from opset 27 on (the gate
+    of `lax.iota` / `jnp.arange` must therefore not be below 27) -/
+theorem range_half_floats_since_27 :
+    ∀ d ∈ [10, 16], (∀ v ∈ [21, 22, 23, 24, 25, 26],
+        tformLegal v ("Range", 3, 1, [], [d, d, d]) = false) ∧ tformLegal 27 ("Range", 3, 1, [], [d, d, d]) = true := by
   decide +kernel
 
 /-- the full statement fails: a model consisting of the node `lax.cumprod` emits, stamped opset 23 -/
